@@ -293,7 +293,8 @@ fn grids(rng: &mut Rng, nsetups: usize, res: usize) {
       let span = span_of(&sp);
       let (s0, i0) = (hz(sp.signal.frequency()), hz(sp.idler.frequency()));
       let d = 0.8 * span;
-      let g = FrequencySpace::new((w(s0 - d), w(s0 + d), res), (w(i0 - d), w(i0 + d), res));
+      let di = 0.61 * d; // unequal spacings on the two axes: the cell area is dws * dwi
+      let g = FrequencySpace::new((w(s0 - d), w(s0 + d), res), (w(i0 - di), w(i0 + di), res));
       let e = sp.efficiencies(g, integ);
       (mm, e)
     });
